@@ -92,6 +92,7 @@ type Sched struct {
 	start time.Time
 
 	seq atomic.Uint64 // global event sequence number (stamps for histories)
+	sleepers atomic.Int32 // tasks inside TimeSleep: waiting for them is not being stuck
 }
 
 var cur atomic.Pointer[Sched]
@@ -215,10 +216,7 @@ func WaitIdle() {
 }
 
 // Sleep lets virtual time pass for the caller, then yields.
-func Sleep(d time.Duration) {
-	time.Sleep(d)
-	Yield("sleep")
-}
+func Sleep(d time.Duration) { TimeSleep(d) }
 
 // Go starts f as a task of the simulation (a plain goroutine outside one).
 func Go(f func()) { GoNamed("", f) }
@@ -335,6 +333,9 @@ func (s *Sched) loop(mainT *task) {
 				return
 			}
 			// nothing runnable: let virtual time advance until somebody parks
+			if s.sleepers.Load() > 0 {
+				idleSince = time.Now()
+			}
 			lim := s.cfg.IdleLimit - time.Since(idleSince)
 			if lim <= 0 {
 				s.res.Stuck = true
